@@ -88,6 +88,14 @@ SwapKeys == { k \in KeySet : k.alg = NONE }
 SwapCell(k, side, a, h) == [part |-> "E", side |-> side, calg |-> a, haskey |-> 1, key |-> IF side = "builder" THEN [k EXCEPT !.priv = 1] ELSE k,
                             route |-> "cb-swap", halg |-> h, sig |-> IF side = "builder" THEN "empty" ELSE "valid"]
 SwapFam == [k \in SwapKeys |-> UNION { { SwapCell(k, sd, "none", h), SwapCell(k, sd, h, h) } : h \in FamAlgs(k), sd \in {"checker", "builder"} }]
+\* F: the object holds a key whose alg attribute pins its algorithm; the callback keeps that key and names ANOTHER
+\* algorithm of the key's family (echoing the token's header, say): the attribute is the pin, the token is refused
+AttrKeys == { k \in KeySet : k.alg \in RealAlgs /\ Family(k.alg) = k.kty }
+MisFam == [k \in AttrKeys |->
+             { [part |-> "F", side |-> "checker", calg |-> x, haskey |-> 1, key |-> k, route |-> "cb-alg", halg |-> x, sig |-> "valid"] :
+                 x \in { a \in RealAlgs : Family(a) = k.kty /\ a # k.alg } }
+             \cup { [part |-> "F", side |-> "builder", calg |-> x, haskey |-> 1, key |-> [k EXCEPT !.priv = 1], route |-> "cb-alg", halg |-> "none", sig |-> "empty"] :
+                 x \in { a \in RealAlgs : Family(a) = k.kty /\ a # k.alg } }]
 Dflt(c) == [OtherKey(c.key) EXCEPT !.alg = c.halg, !.priv = c.key.priv]
 
 \* ------------------------------------------------------------- scripts
@@ -150,8 +158,20 @@ MCInit == /\ Init /\ done = FALSE
              \/ \E k \in DOMAIN GenFam : cell \in GenFam[k]
              \/ \E k \in DOMAIN PreFam : cell \in PreFam[k]
              \/ \E k \in DOMAIN SwapFam : cell \in SwapFam[k]
+             \/ \E k \in DOMAIN MisFam : cell \in MisFam[k]
+\* stage 'faults': every allocation request made inside jwt_checker_verify fails once on the classic substitutions
+FaultKeys == { AsymKey("rsa2048a", 0, NONE, NONE), AsymKey("p256a", 0, "ES256", NONE), OctKey(32, "a", NONE, NONE) }
+FaultCells ==
+  UNION { { [part |-> "B", side |-> "checker", calg |-> IF k.alg = NONE THEN Native(k) ELSE "none", haskey |-> 1, key |-> k, route |-> r, halg |-> hs[1], sig |-> hs[2]] :
+              r \in {"setkey", "cb-both"},
+              hs \in { <<"HS256", "hmacpubpem">>, <<"HS256", "hmacempty">>, <<Native(k), "otherkey">>, <<"none", "empty">>, <<Native(k), "empty">>,
+                       <<"HS512", "valid">>, <<"PS256", "valid">>, <<"ES384", "valid">> } }
+          : k \in FaultKeys }
+FaultCellsOK == { c \in FaultCells : (c.sig = "hmacpubpem" => c.key.kty # "oct") /\ (c.sig = "valid" => c.halg # Native(c.key) /\ Family(c.halg) = c.key.kty) }
+MCInitFault == Init /\ done = FALSE /\ cell \in FaultCellsOK
 MCNext == done = FALSE /\ done' = TRUE /\ UNCHANGED <<cell, vars>>
 MCSpec == MCInit /\ [][MCNext]_<<cell, done, vars>>
+MCSpecFault == MCInitFault /\ [][MCNext]_<<cell, done, vars>>
 
 \* C02 holds of the reference outcome on every cell
 RefSatisfiesC02 ==
